@@ -8,9 +8,15 @@
      * [spec_lt]  — the order as worded by property C03 ([key_lt_spec] / [lex_lt_spec]: natural order,
        null smallest / largest with NullLast, Reverse inverts everything, lexicographic over keys).
        It drives the verified checker [sorted_perm_b] on the implementation's output (code 2).
-   Proofs/SortProofs.v shows that both functions are equal (less_keys_spec ...). *)
+   Proofs/SortProofs.v shows that both functions are equal (less_keys_spec ...).
+
+   Family SFrame: QFrame.Sort itself on a physical frame dump (Model/SortFrame.v: sort_frame), compared
+   exactly with the dumped result (code 1 / 3) and checked by [sort_frame_oracle] (code 2).
+   Model.Frame has its own f_isnan / f_lt on bit patterns; inside this file (and for every file that
+   imports this one last) the short names mean the definitions below; Proofs/SortFrameProofs.v shows
+   that they are the same functions. *)
 From Coq Require Import Uint63.
-From QF Require Import Base.Prelude Base.CaseLib Model.Sort.
+From QF Require Import Base.Prelude Base.CaseLib Model.Frame Model.Sort Model.SortFrame.
 Local Open Scope N_scope.
 
 Inductive keydata :=
@@ -23,6 +29,9 @@ Inductive keydata :=
 (* one sort key: column data, Reverse, NullLast *)
 Definition keyspec := (keydata * (bool * bool))%type.
 
+(* a frame dump with the index as primitive integers (decoded by [dump_frame] below) *)
+Definition fdump := (list (bytes * coldata) * list int * bool)%type.
+
 Inductive sort_case :=
 (* real Comparables (through the hook or through QFrame.Sort); exact = also replay the model *)
 | SKeys (exact : bool) (keys : list keyspec) (input output : list int)
@@ -30,7 +39,9 @@ Inductive sort_case :=
 | SRank (exact : bool) (ranks : list int) (input output : list int)
 (* a FuncKey answering LessThan iff m[a][b] (arbitrary, possibly inconsistent): the property's
    ordering clause does not apply; permutation and exact replay only *)
-| SMatrix (m : list (list bool)) (input output : list int).
+| SMatrix (m : list (list bool)) (input output : list int)
+(* QFrame.Sort(orders...) on a dumped frame with the dumped result; exact = also replay sort_frame *)
+| SFrame (exact : bool) (input : fdump) (orders : list order) (output : fdump).
 
 (* ---- IEEE 754 binary64 on bit patterns *)
 Definition f_isnan (b : N) : bool :=
@@ -112,6 +123,82 @@ Definition replay (exact : bool) (lt : nat -> nat -> bool) (input output : list 
    cost three times as much).  They are only decoded here; no theorem depends on them. *)
 Definition ids (l : list int) : list nat := map (fun i => Z.to_nat (Uint63.to_Z i)) l.
 
+(* ---- QFrame.Sort on physical frames (Model/SortFrame.v) *)
+
+(* an enum cell as a sort key: None = null, Some r = the stored rank = the declared position *)
+Definition enum_rank_key (r : N) : option N := if enum_is_null r then None else Some r.
+
+(* the sort key a physical column stands for *)
+Definition col_key (c : coldata) : keydata :=
+  match c with
+  | ICol d => KInt d
+  | FCol d => KFloat d
+  | BCol d => KBool d
+  | SCol d => KStr d
+  | ECol d _ _ => KEnum (map enum_rank_key d)
+  end.
+
+(* the key list of the statement for a list of orders; None = some order names no column of the frame *)
+Fixpoint frame_keys (f : frame) (orders : list order) : option (list keyspec) :=
+  match orders with
+  | [] => Some []
+  | o :: rest =>
+      match lookup_col f (o_column o), frame_keys f rest with
+      | Some c, Some ks => Some ((col_key c, (o_reverse o, o_nulllast o)) :: ks)
+      | _, _ => None
+      end
+  end.
+
+Definition col_obs_eqb (a b : coldata) : bool :=
+  match a, b with
+  | ICol x, ICol y => list_eqb Z.eqb x y
+  | FCol x, FCol y => list_eqb (fun p q => (p =? q) || (Frame.f_isnan p && Frame.f_isnan q)) x y
+  | BCol x, BCol y => list_eqb Bool.eqb x y
+  | SCol x, SCol y => list_eqb opt_bytes_eqb x y
+  | ECol x vx sx, ECol y vy sy => list_eqb N.eqb x y && list_eqb bytes_eqb vx vy && Bool.eqb sx sy
+  | _, _ => false
+  end.
+
+Definition cols_obs_eqb (a b : list (bytes * coldata)) : bool :=
+  list_eqb (fun x y => bytes_eqb (fst x) (fst y) && col_obs_eqb (snd x) (snd y)) a b.
+
+Definition frame_obs_eqb (m o : frame) : bool :=
+  Bool.eqb (ferr m) (ferr o) &&
+  (ferr o || (cols_obs_eqb (cols m) (cols o) && list_eqb Nat.eqb (ix m) (ix o))).
+
+(* the rows of [g] read through its index are the rows of [f] at the same row ids (rows stay whole) *)
+Definition rows_whole_b (f g : frame) : bool :=
+  match omap (row_at g) (ix g), omap (row_at f) (ix g) with
+  | Ok a, Ok b => list_eqb (list_eqb cell_obs_eqb) a b
+  | _, _ => false
+  end.
+
+(* the property oracle for one Sort call: sticky Err; an order naming no column => Err; otherwise no Err,
+   the columns physically identical, the index a permutation of the receiver's without adjacent inversion
+   in the order worded by the property, every row read through the new index = the receiver's row *)
+Definition sort_frame_oracle (f : frame) (orders : list order) (out : frame) : bool :=
+  if ferr f then ferr out
+  else match frame_keys f orders with
+       | None => ferr out
+       | Some keys =>
+           negb (ferr out) && cols_obs_eqb (cols f) (cols out)
+           && sorted_perm_b (spec_lt keys) (ix f) (ix out)
+           && rows_whole_b f out
+       end.
+
+Definition dump_frame (d : fdump) : frame := mkFrame (fst (fst d)) (ids (snd (fst d))) (snd d).
+
+Definition check_sframe (exact : bool) (fin : fdump) (orders : list order) (fout : fdump) : N :=
+  let f := dump_frame fin in let out := dump_frame fout in
+  if negb (sort_frame_oracle f orders out) then 2
+  else if exact then
+    match sort_frame f orders with
+    | Ok g => if frame_obs_eqb g out then 0 else 1
+    | Fail => 1
+    | Panic => 3
+    end
+  else 0.
+
 Definition check_sort (c : sort_case) : N :=
   match c with
   | SKeys exact keys input output =>
@@ -127,4 +214,5 @@ Definition check_sort (c : sort_case) : N :=
       let input := ids input in let output := ids output in
       if negb (perm_b output input) then 2
       else replay true (matrix_lt m) input output
+  | SFrame exact fin orders fout => check_sframe exact fin orders fout
   end.
